@@ -347,7 +347,11 @@ def _stage_scenario(ctx, rnd):
         nb += 1
         ctx.nontrivial(("scn", tuple(a + str(p) for a, p, _ in beh[1:])))
         if bad:
-            ctx.violation("scenario-state-differs", {"stage": "B", "behaviour": [f"{a}{tuple(p)}" for a, p, _ in beh[1:]], **bad})
+            case = {"stage": "B", "behaviour": [f"{a}{tuple(p)}" for a, p, _ in beh[1:]], **bad}
+            if str(bad.get("action", "")).startswith("Send") and bad.get("what") in ("inputs", "outputs", "utxo"):
+                ctx.violation("scenario-send-differs", case)          # what send_tx built is this property's concern
+            else:
+                ctx.extension_mismatch("scenario-state-differs", case)   # mining / storing / relaying belong to C15, C19, C17/C18
         sends += evs
     sends = sends[: (12 if ctx.tier == "quick" else 300)]
     for i, e in enumerate(sends):
